@@ -37,6 +37,7 @@ var profiles = map[string]profile{
 	"C08": {prop: "C08", replicas: [2]int{2, 3}, steps: [2]int{10, 36}, snapshots: true, li: true, iters: true, knobs: true},
 	"C09": {prop: "C09", replicas: [2]int{1, 1}, steps: [2]int{8, 36}, rangeHeavy: true, iters: true},
 	"C10": {prop: "C10", replicas: [2]int{1, 2}, steps: [2]int{6, 24}, txnHeavy: true, emptyTxn: true},
+	"C11": {prop: "C11", replicas: [2]int{1, 2}, steps: [2]int{6, 24}, li: true, knobs: true},
 	"C12": {prop: "C12", replicas: [2]int{1, 1}, steps: [2]int{8, 36}, adversKeys: true, minKeys: 6, rangeHeavy: true},
 }
 
@@ -503,6 +504,31 @@ func Gen(prop string) func(r *core.Rand, tier string) core.Schedule {
 			if nSteps > 12 {
 				nSteps = 12
 			}
+		}
+		hugeP := 0.0
+		if prop == "C08" {
+			hugeP = 0.006
+			if tier == "thorough" {
+				hugeP = 0.02
+			}
+		}
+		if cfg.Replicas >= 2 && r.Chance(hugeP) {
+			// a table around the 16 MiB snapshot-SST roll-over: the tail after the roll-over is tiny or absent
+			cfg.MemTable, cfg.L0Compact, cfg.BlockSize, cfg.NoAutoComp = 0, 0, 0, false
+			nv := []int{8, 8, 9, 7}[r.Intn(4)]
+			vs := []int{2 * 1024 * 1024, 2*1024*1024 - 1, 2*1024*1024 - 40}[r.Intn(3)]
+			st := Step{Op: "append", Cmds: []Cmd{{T: "bulk", BulkN: nv, BulkV: vs, BulkP: "huge/"}}}
+			if r.Chance(0.5) {
+				li := uint64(77)
+				st.Cmds[0].LI = &li
+			}
+			g.gm.Apply(cfg.command(&st.Cmds[0]))
+			g.logN++
+			steps = append(steps, st)
+			g.applyStep(&steps, 0, g.logN-g.pos[0])
+			steps = append(steps, Step{Op: "prepare", R: 0, Slot: 900}, Step{Op: "save", R: 0, Slot: 900}, Step{Op: "recover", R: 1, From: 0})
+			g.pos[1] = g.pos[0]
+			nSteps = len(steps) + r.Range(0, 4)
 		}
 		if p.rangeHeavy || r.Chance(0.3) {
 			// preload so that ranges have something to return
